@@ -1,6 +1,8 @@
 import PycsepVerif.Proto
 import PycsepVerif.Model.Ecdf
 import PycsepVerif.Model.EcdfNumpy
+import PycsepVerif.Model.EcdfCode
+import PycsepVerif.Model.EcdfPromote
 namespace Drive.C09
 open Proto
 
@@ -12,7 +14,51 @@ def showNp : Ecdf.NpOut → String
   | .prob k n => s!"{k}:{n}"
   | .indexError => "IndexError"
 
+/-- a float64 query value: `inf`, `-inf`, `nan` or an exact rational -/
+def parseQ? : String → Option Ecdf.Q
+  | "inf" => some .posInf | "-inf" => some .negInf | "nan" => some .nan
+  | s => (parseRat? s).map Ecdf.Q.fin
+
+def showOut : Ecdf.Out → String
+  | .none => "none"
+  | .val p => showRat p
+  | .indexError => "IndexError"
+
+def parseDT? : String → Option Ecdf.DT
+  | "uint8" => some .u8 | "uint16" => some .u16 | "uint32" => some .u32 | "uint64" => some .u64
+  | "int8" => some .i8 | "int16" => some .i16 | "int32" => some .i32 | "int64" => some .i64
+  | "float16" => some .f16 | "float32" => some .f32 | "float64" => some .f64 | _ => none
+
+def showDT : Ecdf.DT → String
+  | .u8 => "uint8" | .u16 => "uint16" | .u32 => "uint32" | .u64 => "uint64"
+  | .i8 => "int8" | .i16 => "int16" | .i32 => "int32" | .i64 => "int64"
+  | .f16 => "float16" | .f32 => "float32" | .f64 => "float64"
+
+/-- how the query is handed over: `pyint`, `pyfloat`, or a numpy dtype name -/
+def parseQK? : String → Option Ecdf.QK
+  | "pyint" => some .pyInt | "pyfloat" => some .pyFloat
+  | s => (parseDT? s).map Ecdf.QK.np
+
 def handle : List String → Option String
+  -- the promotion table itself (Model/EcdfPromote.lean), compared with numpy.result_type on all pairs
+  | ["c09_result_type", a, b] => some (match parseDT? a, parseDT? b with
+      | some a, some b => showDT (Ecdf.resultType a b) | _, _ => "bad-op")
+  -- promotion-aware layer driven by dtype NAMES: `ecdf_dt E QK xs v` → `<ge> <le>`
+  | ["ecdf_dt", e, q, xs, v] => some (match parseDT? e, parseQK? q, parseList? parseRat? xs, parseRat? v with
+      | some e, some q, some xs, some v =>
+        showOpt showNp (Ecdf.geEcdfDT e q xs v) ++ " " ++ showOpt showNp (Ecdf.leEcdfDT e q xs v)
+      | _, _, _, _ => "bad-op")
+  -- statement-level layer (Model/EcdfCode.lean): arrays, subscripts, binary search, `cdf=`, ±inf / nan queries.
+  -- `ecdf_code xs v`  /  `ecdf_code xs v ys` (cdf = ecdf(ys))  →  `<ge> <le>`
+  | ["ecdf_code", xs, v] => some (match parseList? parseRat? xs, parseQ? v with
+      | some xs, some v => showOut (Ecdf.geCode xs v none) ++ " " ++ showOut (Ecdf.leCode xs v none)
+      | _, _ => "bad-op")
+  | ["ecdf_code", xs, v, ys] => some (match parseList? parseRat? xs, parseQ? v, parseList? parseRat? ys with
+      | some xs, some v, some ys =>
+        showOut (Ecdf.geCode xs v (some (Ecdf.ecdfArr ys))) ++ " " ++ showOut (Ecdf.leCode xs v (some (Ecdf.ecdfArr ys)))
+      | _, _, _ => "bad-op")
+  | ["binned_code", xs, vs] => some (match parseList? parseRat? xs, parseList? parseQ? vs with
+      | some xs, some vs => showOpt (showList showOut) (Ecdf.binnedCode xs vs) | _, _ => "bad-op")
   | ["ge_ecdf", xs, v] => some (match parseList? parseRat? xs, parseRat? v with
       | some xs, some v => showOpt showPair (Ecdf.geEcdf xs v) | _, _ => "bad-op")
   | ["le_ecdf", xs, v] => some (match parseList? parseRat? xs, parseRat? v with
